@@ -46,6 +46,7 @@ def step (line : String) : String :=
   | id :: _cls :: "slhist" :: args => s!"{id} {evalSlHist args}"
   | id :: _cls :: "hs" :: args => s!"{id} {evalHs args}"
   | id :: _cls :: "suite" :: args => s!"{id} {evalSuite args}"
+  | id :: _cls :: "suiterec" :: args => s!"{id} {evalSuiteRec args}"
   | id :: _cls :: "hist" :: args => s!"{id} {evalHist args}"
   | id :: _cls :: "conv" :: args => s!"{id} {evalConv args}"
   | id :: _cls :: "enc" :: args => s!"{id} {evalEnc args}"
